@@ -80,9 +80,10 @@ def _mk_integrals(key, cache):
             kw.update(A_mat=A, a_vec=a)
             kws.update(A_mat=xp.take(A, rho, axis=0), a_vec=xp.take(a, rho, axis=0))
         if key in ("(Ax+a)'(Bx+b)",):
-            B = w.arr("Bm", "K", "D")            # shared coefficient
-            kw.update(B_mat=B)
-            kws.update(B_mat=B)
+            B = w.arr("Bm", "K", "D")            # shared coefficient matrix, per-component offset
+            bb = w.arr("bbv", "R", "K")
+            kw.update(B_mat=B, b_vec=bb)
+            kws.update(B_mat=B, b_vec=xp.take(bb, rho, axis=0))
         if key == "xb'xx'":
             b = w.arr("bv", "R", "D")
             kw.update(b_vec=b)
